@@ -972,8 +972,18 @@ impl Gen {
             CAT_LIST => self.gen_list(w),
             CAT_POP => Op::Pop,
             CAT_OUTCOME => self.gen_outcome(w, prop),
-            CAT_FORK => Op::Fork,
-            CAT_EQ => Op::EqTwin((self.rng.below(10) + 10 * self.rng.below(200)) as u16),
+            CAT_FORK => {
+                if !w.parked.is_empty() && self.rng.chance(60) {
+                    Op::ParkedStep(self.rng.below(w.parked.len()) as u8, self.rng.below(3) as u8, self.rng.below(200) as u8)
+                } else {
+                    Op::Fork(if self.rng.chance(35) { 1 } else { 0 })
+                }
+            }
+            CAT_EQ => {
+                // with kept originals around, compare against them often
+                let variant = if !w.parked.is_empty() && self.rng.chance(40) { 10 } else { self.rng.below(11) };
+                Op::EqTwin((variant + 11 * self.rng.below(200)) as u16)
+            }
             CAT_REBUILD_MOVES => Op::RebuildMoves,
             CAT_REBUILD_UCI => Op::RebuildUci,
             CAT_BOARD_MAKE => {
